@@ -79,6 +79,7 @@ def main(argv=None) -> int:
         return 0
 
     wall = time.time() - t0
+    _RC[0] = 1 if violations else 0
     if not args.no_evidence:
         write_evidence(ctx, meta, wall, violations, known_hits)
     print(f"property={pid} tier={args.tier} obligations={len(ctx.obs)} discharged={sum(o.ok for o in ctx.obs)} "
@@ -98,6 +99,9 @@ def main(argv=None) -> int:
     return 1 if violations else 0
 
 
+_RC = [2]
+
+
 def _error_evidence(pid: str, tier: str, wall: float, msg: str, skip: bool) -> None:
     if skip:
         return
@@ -112,4 +116,13 @@ def _error_evidence(pid: str, tier: str, wall: float, msg: str, skip: bool) -> N
 
 
 if __name__ == "__main__":
-    sys.exit(main())
+    try:
+        rc = main()
+        sys.stdout.flush()
+    except BrokenPipeError:  # output piped into `head`: keep the verdict in the exit code
+        try:
+            sys.stdout.close()
+        except Exception:
+            pass
+        rc = _RC[0]
+    sys.exit(rc)
